@@ -40,8 +40,13 @@ class GenLemma:
     itself proved in the full context first. Sound: the goal then holds for every value of
     the abstracted terms that satisfies the premises, the real ones included."""
 
-    def __init__(self, name, goal, premises=(), abstract=(), with_uf=False):
+    def __init__(self, name, goal, premises=(), abstract=(), with_uf=False, whole_context=False, kind="lemma"):
+        """whole_context: the abstraction is applied to EVERY constraint of the context (definitions,
+        path condition, proved lemmas); the premises are the only facts kept about the abstracted terms'
+        internal structure."""
         self.name, self.goal, self.premises, self.abstract, self.with_uf = name, goal, list(premises), list(abstract), with_uf
+        self.whole_context = whole_context
+        self.kind = kind  # "claim": a clause of the property itself, proved in generalised form
 
 
 def prove_genlemma(C, L, cons, timeout_ms):
@@ -57,6 +62,10 @@ def prove_genlemma(C, L, cons, timeout_ms):
         subs.append((term, z3.Real(f"gen!{L.name}!{k}")))
     g = z3.substitute(_t(L.goal), *subs) if subs else _t(L.goal)
     ps = [z3.substitute(_t(p), *subs) if subs else _t(p) for p in L.premises]
+    if L.whole_context:
+        ctxs = [z3.substitute(f, *subs) if subs else f for f in cons] + ps
+        r, dt, _m = solve.check(C, g, timeout_ms, cons=ctxs)
+        return r if r == "unsat" else "unknown", time.time() - t0, "generalised goal (whole context) " + r
     s = solve.mk_solver(timeout_ms)
     s.add(*ps)
     if L.with_uf:
@@ -139,7 +148,8 @@ def run_job(name, run, *, timeout_ms=60000, max_paths=20000, prune=True, prune_t
             for lem in out.lemmas:
                 if isinstance(lem, GenLemma):
                     r, dt, detail = prove_genlemma(C, lem, cons + proved, timeout_ms)
-                    verdicts.append({"obligation": f"{tag}/lemma(generalised):{lem.name}", "verdict": r if r == "unsat" else "unknown", "time_s": round(dt, 3), "kind": "lemma", "reason": detail})
+                    verdicts.append({"obligation": f"{tag}/{'lemma' if lem.kind == 'lemma' else 'claim'}(generalised):{lem.name}", "verdict": r if r == "unsat" else "unknown", "time_s": round(dt, 3),
+                                     "kind": lem.kind, "reason": detail})
                     if r == "unsat":
                         proved.append(_t(lem.goal))
                     continue
